@@ -265,10 +265,10 @@ def run(chk, extra_env=None, only_codec=None):
     found_input = False
     import os
     for pkg, test in PKGS:
-        if not os.path.isdir(os.path.join(vlib.OVERLAY_SRC, "pkgs", pkg[2:])) or not any(
-                fn.startswith("zz_verif_c18") for fn in os.listdir(os.path.join(vlib.OVERLAY_SRC, "pkgs", pkg[2:]))):
+        hdir = os.path.join(vlib.OVERLAY_SRC, "root") if pkg == "." else os.path.join(vlib.OVERLAY_SRC, "pkgs", pkg[2:])
+        if not os.path.isdir(hdir) or not any(fn.startswith("zz_verif_c18") for fn in os.listdir(hdir)):
             continue
-        out = vlib.out_path("c18" + pkg.replace("/", "_").replace(".", ""))
+        out = vlib.out_path("c18" + (pkg.replace("/", "_").replace(".", "") or "_root"))
         rc, o = vlib.go_test(pkg, test, dict(env, VERIF_OUT=out), tags=["c18"],
                              timeout=3000 if chk.tier == "thorough" else 600)
         got = vlib.read_jsonl(out)
@@ -311,10 +311,17 @@ def run(chk, extra_env=None, only_codec=None):
         labels = [l for l, _ in lcs]
         c = lcs[0][1]
         found_input = True
+        meaning = {
+            "panic": "the implementation panics on a fixed edge value",
+            "in-range-value-refused": "the encoder refuses a value that the wire format can express",
+            "encoder-output-not-decoded-to-value": "the encoder returns no error for a value it cannot express, and what "
+                                                   "it wrote is rejected by the matching decoder or decodes to another value",
+            "encoder-output-not-canonical": "the encoding of a fixed value is not a fixed point of decode-then-encode",
+        }[mon]
         chk.finding(site, {"monitor": mon, "codec": codec, "edges": labels},
-                    "%s: %s for the edge values %s of codec %s (ctx/name=outcome; e.g. %s)"
-                    % (site, mon, ", ".join(labels), codec, c.get("detail") or c.get("panic") or c.get("err") or
-                       "Marshal returned %s bytes" % c.get("len")),
+                    "%s: %s - %s; edge values (ctx/name=outcome) %s of codec %s; first: %s"
+                    % (site, mon, meaning, ", ".join(labels), codec, c.get("detail") or c.get("panic") or c.get("err") or
+                       "Marshal returned %s bytes without error" % c.get("len")),
                     {"how": "Marshal the named fixed value (harness/overlay/**/zz_verif_c18*: Edges / "
                             "TestVerifC18Conn) and Unmarshal the result under the context ctx",
                      "case": c, "all": [dict(x, label=l) for l, x in lcs],
